@@ -114,15 +114,15 @@ theorem headB_letter (v : Int) (t : Bytes) (h : v = 1 ∨ v = 0 ∨ v = -1) : he
   rcases h with h | h | h <;> subst h <;> simp [letterOf, letterB, headB]
 
 /-- the normal case of `report()`: exit 0, no crash, some output -/
-theorem rreport_normal (wstat : Nat) (s slack : Bytes) (h1 : wstat % 128 = 0) (h2 : wstat / 256 = 0) (h3 : s ≠ []) :
-    rreport wstat s slack =
-      letterOf (orrOf s (scan .start s)) ++ tailOf s slack (scan .start s) (orrOf s (scan .start s)) := by
+theorem rreport_normal (wstat : Nat) (s : Bytes) (h1 : wstat % 128 = 0) (h2 : wstat / 256 = 0) (h3 : s ≠ []) :
+    rreport wstat s =
+      letterOf (orrOf s (scan .start s)) ++ tailOf s (scan .start s) (orrOf s (scan .start s)) := by
   unfold rreport
   simp [h1, h2, h3]
 
-theorem headB_rreport_normal (wstat : Nat) (s slack : Bytes) (h1 : wstat % 128 = 0) (h2 : wstat / 256 = 0) (h3 : s ≠ []) :
-    headB (rreport wstat s slack) = letterB (orrOf s (resultOf (firstKZD (records [] s)))) := by
-  rw [rreport_normal wstat s slack h1 h2 h3, scan_start]
+theorem headB_rreport_normal (wstat : Nat) (s : Bytes) (h1 : wstat % 128 = 0) (h2 : wstat / 256 = 0) (h3 : s ≠ []) :
+    headB (rreport wstat s) = letterB (orrOf s (resultOf (firstKZD (records [] s)))) := by
+  rw [rreport_normal wstat s h1 h2 h3, scan_start]
   exact headB_letter _ _ (orrOf_range _ _ (resultOf_range _))
 
 theorem sound_core (c : Byte) (t : Bytes) (m : Option Byte) (h : letterB (orrOf (c :: t) (resultOf m)) = cK) :
@@ -160,14 +160,14 @@ theorem noup_core (c : Byte) (t : Bytes) (m : Option Byte) :
           · simp [orrOf, hS, hH, resultOf, hK, hZ, letterB, rank, cK, cZ, cD]
           · simp [orrOf, hS, hH, resultOf, hK, hZ, letterB, rank, cK, cZ, cD]
 
-theorem rspawnSound_rreport (wstat : Nat) (s slack : Bytes) : rspawnSound wstat s (rreport wstat s slack) = true := by
+theorem rspawnSound_rreport (wstat : Nat) (s : Bytes) : rspawnSound wstat s (rreport wstat s) = true := by
   unfold rspawnSound
   by_cases h1 : wstat % 128 = 0
   · by_cases h2 : wstat / 256 = 0
     · cases s with
       | nil => simp [rreport, h1, h2]; decide
       | cons c t =>
-        rw [headB_rreport_normal wstat (c :: t) slack h1 h2 (by simp)]
+        rw [headB_rreport_normal wstat (c :: t) h1 h2 (by simp)]
         by_cases hk : letterB (orrOf (c :: t) (resultOf (firstKZD (records [] (c :: t))))) = cK
         · obtain ⟨a1, a2, a3⟩ := sound_core c t _ hk
           simp [hk, h1, h2, headB, a1, a2, a3]
@@ -177,14 +177,14 @@ theorem rspawnSound_rreport (wstat : Nat) (s slack : Bytes) : rspawnSound wstat 
       · simp [rreport, h1, h2, h3]; decide
   · simp [rreport, h1]; decide
 
-theorem rspawnClasses_rreport (wstat : Nat) (s slack : Bytes) : rspawnClasses wstat s (rreport wstat s slack) = true := by
+theorem rspawnClasses_rreport (wstat : Nat) (s : Bytes) : rspawnClasses wstat s (rreport wstat s) = true := by
   unfold rspawnClasses
   by_cases h1 : wstat % 128 = 0
   · by_cases h2 : wstat / 256 = 0
     · cases s with
       | nil => simp [rreport, h1, h2]; decide
       | cons c t =>
-        rw [headB_rreport_normal wstat (c :: t) slack h1 h2 (by simp)]
+        rw [headB_rreport_normal wstat (c :: t) h1 h2 (by simp)]
         simp only [h1, h2, ne_eq, not_true_eq_false, if_false, List.isEmpty_cons]
         simp only [show (0 : Nat) ≠ 111 by decide, if_false, Bool.false_eq_true]
         unfold letterB isKZD
@@ -195,16 +195,48 @@ theorem rspawnClasses_rreport (wstat : Nat) (s slack : Bytes) : rspawnClasses ws
       · simp [rreport, h1, h2, h3]; decide
   · simp [rreport, h1]; decide
 
-theorem noUpgrade_rreport (wstat : Nat) (s slack : Bytes) (h1 : wstat % 128 = 0) (h2 : wstat / 256 = 0) (h3 : s ≠ []) :
-    noUpgrade s (rreport wstat s slack) = true := by
+theorem noUpgrade_rreport (wstat : Nat) (s : Bytes) (h1 : wstat % 128 = 0) (h2 : wstat / 256 = 0) (h3 : s ≠ []) :
+    noUpgrade s (rreport wstat s) = true := by
   unfold noUpgrade
   cases s with
   | nil => exact absurd rfl h3
   | cons c t =>
-    simp only [headB_rreport_normal wstat (c :: t) slack h1 h2 (by simp)]
+    simp only [headB_rreport_normal wstat (c :: t) h1 h2 (by simp)]
     have := noup_core c t (firstKZD (records [] (c :: t)))
     cases hm : firstKZD (records [] (c :: t)) with
     | none => rw [hm] at this; simpa [headB] using this
     | some x => rw [hm] at this; simpa [headB] using this
+
+theorem cstr_cons_ne (c : Byte) (r : Bytes) (h : c ≠ NUL) : cstr (c :: r) = c :: cstr r := by simp [cstr, h]
+
+/-- the text part of `report()` consists of bytes of the output only -/
+theorem relayWithin_rreport (wstat : Nat) (s : Bytes) (h1 : wstat % 128 = 0) (h2 : wstat / 256 = 0) (h3 : s ≠ []) :
+    relayWithin s (rreport wstat s) = true := by
+  rw [rreport_normal wstat s h1 h2 h3]
+  have hr := orrOf_range s (scan .start s) (by rw [scan_start]; exact resultOf_range _)
+  generalize orrOf s (scan .start s) = orr at hr
+  generalize scan .start s = result
+  have hd : (letterOf orr ++ tailOf s result orr).drop 1 = tailOf s result orr := by
+    rcases hr with h | h | h <;> subst h <;> simp [letterOf]
+  unfold relayWithin
+  simp only [hd]
+  cases s with
+  | nil => exact absurd rfl h3
+  | cons c s1 =>
+    simp only [tailOf, List.drop_succ_cons, List.drop_zero]
+    cases hn : afterNul s1 with
+    | none => simp
+    | some rest =>
+      simp only
+      by_cases hle : result ≤ orr
+      · simp only [hle, if_true]
+        cases rest with
+        | nil => simp
+        | cons c' rest' =>
+          by_cases hk : c' = cZ ∨ c' = cD ∨ c' = cK
+          · have hne : c' ≠ NUL := by rcases hk with h | h | h <;> rw [h] <;> decide
+            simp [hk, cstr_cons_ne c' rest' hne]
+          · simp [hk]
+      · simp [hle]
 
 end Nq.Lemmas.Rspawn
